@@ -29,7 +29,8 @@ Stochastic(n)    == {r \in [1..n -> 0..Den] : SumSeq(r, 1, 0) = Den}
 \* reduced families for the quick tier (zeros, ties and defective rows all still present)
 QE   == {r \in Stochastic(M) : r[1] >= r[M]} \cup {[k \in 1..M |-> IF k = M THEN 1 ELSE 0]}
 QI   == {r \in Stochastic(S) : r[1] <= r[S]} \cup {[k \in 1..S |-> IF k = 1 THEN 1 ELSE 0]}
-QEnd == {[k \in 1..S |-> IF k = 1 THEN 1 ELSE Den], [k \in 1..S |-> IF k = S THEN 1 ELSE 0]}
+QEnd == {[k \in 1..S |-> IF k = 1 THEN 1 ELSE Den]}
+QEnd2 == {[k \in 1..S |-> IF k = 1 THEN 1 ELSE Den], [k \in 1..S |-> IF k = S THEN 1 ELSE 0]}
 FewEnd == {r \in AnyRow(S) : r[1] # r[S] \/ r[1] = 1}
 StochT == Stochastic(S)
 
